@@ -636,6 +636,10 @@ type unfoldInfo struct {
 	rootCall                *ssa.Call
 	catP, offP, seqP, recvP int
 	cellField               string
+	// closure form: the unfolding is a function literal that calls itself through the variable it is assigned to and
+	// appends to a listing variable it captures (listFV / selfFV index its free variables)
+	closure        bool
+	listFV, selfFV int
 }
 
 func unfoldInfoOf(c *core.Ctx) *unfoldInfo {
@@ -716,6 +720,87 @@ func unfoldInfoOf(c *core.Ctx) *unfoldInfo {
 			}
 		}
 	}
+	// closure form: `var walk func(reflect.Type, uintptr); walk = func(cat, offset) { ... walk(ft, offset+fv.Offset) ... }`
+	// inside New (or a delegate), the listing a captured variable
+	hosts := []*ssa.Function{fn}
+	for _, s := range sites {
+		if o := s.callee.Object(); o != nil && !o.Exported() {
+			hosts = append(hosts, s.callee)
+		}
+	}
+	for _, host := range hosts {
+		for _, anon := range host.AnonFuncs {
+			ui := &unfoldInfo{fn: anon, catP: -1, offP: -1, seqP: -1, recvP: -1, closure: true, listFV: -1, selfFV: -1}
+			for i, p := range anon.Params {
+				switch t := p.Type(); {
+				case types.TypeString(t, nil) == "reflect.Type":
+					ui.catP = i
+				case isBasicKind(t, types.Uintptr):
+					ui.offP = i
+				}
+			}
+			for i, fv := range anon.FreeVars {
+				pt, isP := fv.Type().(*types.Pointer)
+				if !isP {
+					continue
+				}
+				if isSeqOfType(pt.Elem()) {
+					ui.listFV = i
+				} else if sg, isSig := pt.Elem().Underlying().(*types.Signature); isSig && types.Identical(sg, anon.Signature) {
+					ui.selfFV = i
+				}
+			}
+			if ui.catP < 0 || ui.offP < 0 || ui.listFV < 0 || ui.selfFV < 0 {
+				continue
+			}
+			// the variable holds this very closure and nothing else: one store, of the function literal
+			var mk *ssa.MakeClosure
+			for _, b := range host.Blocks {
+				for _, in := range b.Instrs {
+					if m, ok := in.(*ssa.MakeClosure); ok && m.Fn == ssa.Value(anon) {
+						mk = m
+					}
+				}
+			}
+			if mk == nil || ui.selfFV >= len(mk.Bindings) {
+				continue
+			}
+			cell, isAlloc := mk.Bindings[ui.selfFV].(*ssa.Alloc)
+			if !isAlloc {
+				continue
+			}
+			okCell, nStore, nRoot := true, 0, 0
+			var root *ssa.Call
+			for _, r := range *cell.Referrers() {
+				switch r := r.(type) {
+				case *ssa.Store:
+					if r.Addr == ssa.Value(cell) && r.Val == ssa.Value(mk) {
+						nStore++
+					} else {
+						okCell = false
+					}
+				case *ssa.MakeClosure:
+					okCell = okCell && r == mk
+				case *ssa.UnOp:
+					for _, u := range *r.Referrers() {
+						if call, isCall := u.(*ssa.Call); isCall && call.Call.Value == ssa.Value(r) && len(call.Call.Args) == len(anon.Params) {
+							root = call
+							nRoot++
+						} else if _, isDbg := u.(*ssa.DebugRef); !isDbg {
+							okCell = false
+						}
+					}
+				case *ssa.DebugRef:
+				default:
+					okCell = false
+				}
+			}
+			if okCell && nStore == 1 && nRoot == 1 { // one walk from the root: a second one would list every field again
+				ui.rootCall = root
+				return ui
+			}
+		}
+	}
 	return nil
 }
 
@@ -736,6 +821,17 @@ func unfoldAnalysis(c *core.Ctx, ui *unfoldInfo) *ir.Analysis {
 		}
 	}
 	root := c.W.Func("hseq", "New")
+	if ui.closure {
+		// the literal is analysed with the variable it is assigned to holding that very closure (so that the call through
+		// it is the recursive call); the captured listing stays a symbolic cell
+		bindings := make([]*ir.Term, len(uf.FreeVars))
+		for i, fv := range uf.FreeVars {
+			bindings[i] = &ir.Term{Op: "free", Aux: fv.Name(), Typ: fv.Type(), Src: fv}
+		}
+		mem := ir.NewState()
+		mem.Poke(bindings[ui.selfFV], &ir.Term{Op: "closure", Fn: uf, Args: bindings, Typ: uf.Signature})
+		return c.AnalyzeFrom(uf, ir.NewRootState(uf, nil, bindings, mem), "self-bound")
+	}
 	if len(extra) == 0 || root == nil {
 		return c.Analyze(uf)
 	}
